@@ -45,6 +45,13 @@ def _c03(run, drv, rng, tier):
             props_c.check_compiled(run, drv, rng, sc, 250, 6, cfgs, "C03")
 
 
+def _c04(run, drv, rng, tier):
+    from . import props_op
+    with R.Scratch() as sc:
+        n, k = (14, 4) if tier == "quick" else (400, 8)
+        props_op.check_c04(run, drv, rng, sc, n, k)
+
+
 def _c06(run, drv, rng, tier):
     with R.Scratch() as sc:
         n, frac = (3000, 0.25) if tier == "quick" else (80000, 1.0)
@@ -192,5 +199,18 @@ PROPS = {
                 "single bit/min/max/-1 + random values; C little- and big-endian builds always complete, Python and "
                 "the optimisation-mode generator a seeded fraction in the quick tier, complete in the thorough tier",
         "assumptions": C_ASSUME + PY_ASSUME,
+    },
+    "C04": {
+        "modules": ["BpModel.Props.C04"],
+        "theorems": ["Bp.C04.C04_plan_cover", "Bp.C04.C04_encode", "Bp.C04.C04_same_as_standard", "Bp.C04.C04_decode",
+                     "Bp.C04.C04_leaf", "Bp.C04.C04_leaf_dec", "Bp.C04.C04_endian_select", "Bp.C04.C04_mask_tied"],
+        "explore": _c04,
+        "correspondence": "generated Encode*/Decode* statements (C little-endian branch, C big-endian branch, Go) parsed into items vs op.plan; C executed",
+        "rule": "traditional schemas from the seeded generator; every generated program (C --endian both/little/big, Go) "
+                "is parsed statement by statement and compared with the Lean plan; C objects built for --endian "
+                "little, big, both and both with -DBP_BIG_ENDIAN are executed on boundary-biased values and compared "
+                "with the specification; distinct by leaf triples per direction/config",
+        "assumptions": C_ASSUME + ["Go statements are never executed (no toolchain): their meaning is the Go item semantics "
+                                   "(byte() truncation, typed shifts, arithmetic >> on signed) written from the language specification"],
     },
 }
